@@ -273,11 +273,11 @@ func argsSortedOnceForm(c *ctx) string {
 	return unknown("argument check of a request field", c.pos(rf))
 }
 
-// condByIdentityForm (D14): does a fragment apply only when its type condition *is* the type the selections are
-// resolved on, with an interface-typed field resolved on the interface itself (so `... on Obj` never applies there
-// and __typename names the interface); or is an interface-typed field resolved on the object type bound to the Go
-// type of the value, and does a fragment apply when its condition is that type, an interface it implements or a
-// union it is a member of?
+// condByIdentityForm (D14): does a fragment apply only when its type condition *is* the (static) type of the
+// position, with __typename naming that type (the interface under an interface-typed field); or does it also apply
+// when the object type of the value can be determined (objectType) and the condition is that type, an interface it
+// implements or a union it is a member of (fragmentType), its selections then being resolved at the condition, and
+// does __typename name the object type?
 func condByIdentityForm(c *ctx) string {
 	norm := func(n ast.Node) string {
 		t := regexp.MustCompile(`(?m)//.*$`).ReplaceAllString(c.src(n), "")
@@ -288,17 +288,24 @@ func condByIdentityForm(c *ctx) string {
 		return unknown("resolve / resolveInline / resolveFragRef", "resolve.go")
 	}
 	r, i, f := norm(rs.Body), norm(ri.Body), norm(rf.Body)
-	fa, im := c.funcs["fragmentApplies"], c.funcs["Object.implements"]
+	ot, ft, im, rfd := c.funcs["Root.objectType"], c.funcs["Root.fragmentType"], c.funcs["Object.implements"], c.funcs["Root.resolveField"]
+	if rfd == nil {
+		return unknown("resolveField", "resolve.go")
+	}
+	fld := norm(rfd.Body)
+	const walkArm = "case *Object, *Schema, *Interface, *uuSchema: result, ea = root.resolveFieldSels(obj, vars, field, t, depth-1)"
 	switch {
-	case fa == nil && strings.Contains(r, "case *Object, *Schema, *Interface, *uuSchema: result, ea = root.resolveFieldSels(obj, vars, field, t, depth-1)") &&
+	case ot == nil && ft == nil && strings.Contains(r, walkArm) &&
+		strings.Contains(fld, `case "__typename": result[field.key()] = t.Name() return nil`) &&
 		strings.Contains(i, "if sel.Condition == nil || sel.Condition == t { ea = root.resolveSels(obj, vars, sel.Sels, t, result, depth) }") &&
 		strings.Contains(f, "if sel.Fragment.Condition == nil || sel.Fragment.Condition == t { ea = root.resolveSels(obj, vars, sel.Fragment.Sels, t, result, depth)"):
 		return "true"
-	case fa != nil && im != nil &&
-		strings.Contains(r, "case *Object, *Schema, *uuSchema: result, ea = root.resolveFieldSels(obj, vars, field, t, depth-1) case *Interface: if ot, _ := root.getReflectType(reflect.TypeOf(obj)).(*Object); ot != nil && ot.implements(tt) { t = ot } result, ea = root.resolveFieldSels(obj, vars, field, t, depth-1)") &&
-		strings.Contains(i, "if fragmentApplies(sel.Condition, t) { ea = root.resolveSels(obj, vars, sel.Sels, t, result, depth) }") &&
-		strings.Contains(f, "if fragmentApplies(sel.Fragment.Condition, t) { ea = root.resolveSels(obj, vars, sel.Fragment.Sels, t, result, depth)") &&
-		norm(fa.Body) == "{ if cond == nil || cond == t { return true } if ot, _ := t.(*Object); ot != nil { switch tc := cond.(type) { case *Interface: return ot.implements(tc) case *Union: for _, m := range tc.Members { if m == t { return true } } } } return false }" &&
+	case ot != nil && ft != nil && im != nil && strings.Contains(r, walkArm) &&
+		strings.Contains(fld, `case "__typename": if ot := root.objectType(obj, t); ot != nil { result[field.key()] = ot.Name() } else { result[field.key()] = t.Name() } return nil`) &&
+		strings.Contains(i, "if ft := root.fragmentType(obj, sel.Condition, t); ft != nil { ea = root.resolveSels(obj, vars, sel.Sels, ft, result, depth) }") &&
+		strings.Contains(f, "if ft := root.fragmentType(obj, sel.Fragment.Condition, t); ft != nil { ea = root.resolveSels(obj, vars, sel.Fragment.Sels, ft, result, depth)") &&
+		norm(ot.Body) == "{ switch tt := t.(type) { case *Object: return tt case *Interface: if ot, _ := root.getReflectType(reflect.TypeOf(obj)).(*Object); ot != nil && ot.implements(tt) { return ot } case *Union: if ot, _ := root.getReflectType(reflect.TypeOf(obj)).(*Object); ot != nil { for _, m := range tt.Members { if m == ot { return ot } } } } return nil }" &&
+		norm(ft.Body) == "{ if cond == nil || cond == t { return t } if ot := root.objectType(obj, t); ot != nil { switch tc := cond.(type) { case *Object: if tc == ot { return tc } case *Interface: if ot.implements(tc) { return tc } case *Union: for _, m := range tc.Members { if m == ot { return tc } } } } return nil }" &&
 		norm(im.Body) == "{ for _, i := range t.Interfaces { if i == it { return true } } return false }":
 		return "false"
 	}
